@@ -669,7 +669,7 @@ def check_pack_order(ctx):
     return f, k, seq, nodes
 
 
-@rule("R01.6", min_instances=5, desc="per-interval selection in get_p_sys: every per-interval list is addressed with the same k; global P and V are not indexed")
+@rule("R01.6", min_instances=3, desc="per-interval selection in get_p_sys: every per-interval list is addressed with the same k; global P and V are not indexed")
 def r01_6(ctx):
     try:
         f, k, seq, nodes = get_p_sys_sequence(ctx)
